@@ -9,9 +9,34 @@ import (
 
 	"verif/harness/core"
 	"verif/harness/gen"
+	"verif/harness/obs"
 )
 
+func scaled() {
+	for _, sh := range gen.ScaledShapes {
+		for _, n := range []int{1, 3, 40} {
+			for _, nl := range []string{"\n", "\r\n"} {
+				src := sh.Make(n, nl)
+				for _, ver := range []string{"5.6", "7.4"} {
+					if sh.Fam == 7 && ver == "5.6" {
+						continue
+					}
+					pr := obs.Parse([]byte(src), ver, true)
+					if pr.Panic != nil || len(pr.Errors) > 0 || pr.Root == nil {
+						fmt.Printf("NOT VALID %s n=%d %s: %v %q\n", sh.Name, n, ver, obs.ErrStrings(pr.Errors), src[:min(len(src), 120)])
+					}
+				}
+			}
+		}
+	}
+	fmt.Println(len(gen.ScaledShapes), "shapes checked")
+}
+
 func main() {
+	if os.Args[1] == "scaled" {
+		scaled()
+		return
+	}
 	fam, _ := strconv.Atoi(os.Args[1])
 	seed, _ := strconv.ParseInt(os.Args[2], 10, 64)
 	n, _ := strconv.Atoi(os.Args[3])
